@@ -56,7 +56,11 @@ func c01Sink(sink, neigh, e, extra string) string {
 	}
 	switch sink {
 	case "text":
-		return fmt.Sprintf(`<p id="s"%s%s>%s{{ %s }}%s</p>`, extra, attr, pre, e, post)
+		el := fmt.Sprintf(`<p id="s"%s%s>%s{{ %s }}%s</p>`, extra, attr, pre, e, post)
+		if c01CurHost != "" {
+			return c01WrapHost(c01CurHost, el)
+		}
+		return el
 	case "vtext":
 		return fmt.Sprintf(`<p id="s"%s%s v-text="%s"></p>`, extra, attr, e)
 	case "attri":
@@ -114,6 +118,7 @@ func c01Data(v any) map[string]any {
 }
 
 type c01Case struct {
+	Host      string `json:"host,omitempty"` // element that directly contains the text sink ("" = p)
 	Sink      string `json:"sink"`
 	Neigh     string `json:"neigh"`
 	Construct string `json:"construct"`
@@ -123,26 +128,64 @@ type c01Case struct {
 }
 
 func (c *c01Case) Key() string {
-	return fmt.Sprintf("%s|%s|%s|%v|%s", c.Sink, c.Neigh, c.Construct, c.Tokens, c.Typed)
+	return fmt.Sprintf("%s|%s|%s|%s|%v|%s", c.Host, c.Sink, c.Neigh, c.Construct, c.Tokens, c.Typed)
+}
+
+// hosts whose content model is special for the HTML5 parser (raw text, escapable raw text,
+// scripting-dependent, foreign context, table and select scoping)
+var c01Hosts = []string{"noscript", "iframe", "xmp", "textarea", "title", "noembed", "noframes", "pre", "option", "td", "button", "svg"}
+
+func c01HostAlphabet(host string) []string {
+	return append(append([]string{}, c01Alphabet...), "</"+host+">")
+}
+
+func c01WrapHost(host, sinkHTML string) string {
+	// sinkHTML is <p id="s"...>TEXT</p>: re-tag it
+	inner := strings.TrimSuffix(strings.TrimPrefix(sinkHTML, "<p"), "</p>")
+	el := "<" + host + inner + "</" + host + ">"
+	switch host {
+	case "option":
+		return "<select>" + el + "</select>"
+	case "td":
+		return "<table><tr>" + el + "</tr></table>"
+	case "svg":
+		return "<svg><text" + inner + "</text></svg>"
+	}
+	return el
 }
 
 func (c *c01Case) value() any {
 	if c.Typed != "" {
 		return c01Typed[c.Typed]
 	}
+	if c.Host != "" {
+		return joinTokens(c01HostAlphabet(c.Host), c.Tokens)
+	}
 	return joinTokens(c01Alphabet, c.Tokens)
 }
 
 var c01RefCache = map[string]string{}
 
+// c01CurHost is the host element of the case being run (workers are single-threaded).
+var c01CurHost string
+
+// c01Skeleton: element/attribute-name skeleton; for special hosts under both scripting modes.
+func c01Skeleton(out string) string {
+	s := htmlcmp.Skeleton(htmlcmp.Parse(out))
+	if c01CurHost != "" {
+		s += "\n--noscript-mode--\n" + htmlcmp.Skeleton(htmlcmp.ParseFragmentNoScript(out))
+	}
+	return s
+}
+
 func c01Ref(sink, neigh, construct string) string {
-	k := sink + "|" + neigh + "|" + construct
+	k := c01CurHost + "|" + sink + "|" + neigh + "|" + construct
 	if s, ok := c01RefCache[k]; ok {
 		return s
 	}
 	files, page := c01Program(sink, neigh, construct)
 	out, err := renderPage(files, page, c01Data(c01Harmless))
-	s := htmlcmp.Skeleton(htmlcmp.Parse(out))
+	s := c01Skeleton(out)
 	if err != nil {
 		s = "ERROR " + err.Error()
 	}
@@ -165,7 +208,7 @@ func c01Probe(ctx *core.Ctx, sink, neigh, construct string, v any) (mode, detail
 	if strings.Contains(out, c01Canary) {
 		return "mustache-evaluated", "canary in output: " + clip(out, 300)
 	}
-	got := htmlcmp.Skeleton(htmlcmp.Parse(out))
+	got := c01Skeleton(out)
 	if got != ref {
 		mode = "markup-injected"
 		if c01SameTags(got, ref) {
@@ -203,6 +246,8 @@ func c01Trigger(s string) string {
 }
 
 func (c *c01Case) Run(ctx *core.Ctx) {
+	c01CurHost = c.Host
+	defer func() { c01CurHost = "" }()
 	v := c.value()
 	s := fmt.Sprint(v)
 	if strings.ContainsAny(s, "<>\"'&{") {
@@ -220,12 +265,18 @@ func (c *c01Case) Run(ctx *core.Ctx) {
 	}
 	// attribute the failure to the smallest context in which this value still fails
 	where := c.Sink + "@" + c.Construct + "+" + c.Neigh
+	if c.Host != "" {
+		where = c.Sink + "-in-" + c.Host + "@" + c.Construct + "+" + c.Neigh
+	}
 	for _, alt := range [][2]string{{"top", "N0"}, {c.Construct, "N0"}, {"top", c.Neigh}} {
 		if alt[0] == c.Construct && alt[1] == c.Neigh {
 			break
 		}
 		if m, _ := c01Probe(ctx, c.Sink, alt[1], alt[0], v); m == mode {
 			where = c.Sink + "@" + alt[0] + "+" + alt[1]
+			if c.Host != "" {
+				where = c.Sink + "-in-" + c.Host + "@" + alt[0] + "+" + alt[1]
+			}
 			break
 		}
 	}
@@ -245,7 +296,7 @@ func init() {
 		Level: "exploration",
 		Rule: "all token strings up to the bound over the alphabet " + fmt.Sprintf("%q", c01Alphabet) + " plus 7 non-string values, in every sink (text, v-text, interpolated attr, :attr, v-bind:attr) x static neighbourhood (6) x enclosing construct (12); " +
 			"oracle: HTML5 re-parse has the same element/attribute-name skeleton as with the value 'zqx', and a canary bound to `secret` never appears. non-trivial = value contains one of < > \" ' & {; distinct = distinct (context, token vector)",
-		Bounds:      map[string]string{"quick": "token strings of length <= 3 in all contexts", "thorough": "token strings of length <= 3 in all contexts, length 4 in the N0 neighbourhood of every sink and construct"},
+		Bounds:      map[string]string{"quick": "token strings of length <= 3 in all contexts; text sink inside 12 special host elements (raw-text, RCDATA, noscript in both scripting modes, select, table, svg) with the host's end tag added to the alphabet, length <= 3", "thorough": "token strings of length <= 3 in all contexts, length 4 in the N0 neighbourhood of every sink and construct"},
 		Assumptions: []string{"golang.org/x/net/html is a faithful HTML5 parser", "v-html sinks and script/style bodies are exempt and never used as sinks"},
 		Decode:      core.DecodeAs[c01Case](),
 		Enumerate: func(tier string, emit func(core.Case)) {
@@ -265,6 +316,15 @@ func init() {
 					emit(&c01Case{Sink: s, Neigh: n, Construct: c, Typed: t, Value: fmt.Sprint(c01Typed[t])})
 				}
 			})
+			for _, h := range c01Hosts {
+				alpha := c01HostAlphabet(h)
+				tokenStrings(alpha, 3, func(tok []int) {
+					val := joinTokens(alpha, tok)
+					for _, c := range []string{"top", "forchild", "incbound", "slotnamed"} {
+						emit(&c01Case{Host: h, Sink: "text", Neigh: "N0", Construct: c, Tokens: append([]int(nil), tok...), Value: val})
+					}
+				})
+			}
 			full, n0 := 3, 3
 			if tier == "thorough" {
 				full, n0 = 3, 4
